@@ -983,6 +983,16 @@ class World:
                     f.write(b"F" * op.get("size", 10))
                 t = self.clock.now + op.get("age", 0)
                 os.utime(p, ns=(t, t))
+        elif kind == "CHDIR":
+            # the user's program changes its working directory (only generated for the module-level API, which
+            # promises absolute cache paths)
+            if self.cwd and self.knobs.get("api") == "module":
+                new = "/SIMFS/" + op["to"]
+                self.fs.h_mkdirs(new)
+                self.cwd = new
+                interpose._STATE["cwd"] = new
+                # from now on the user has to name the same directory absolutely when (re)creating the cache
+                self.cache_arg = self.cache_dir
         elif kind == "EDIT_CONFIG":
             # the documented way to change the size of an existing cache: edit file_cache_config.json
             import json as _json
